@@ -9,6 +9,8 @@ def _run(env_extra, timeout=600, test="native_search"):
     env = dict(os.environ)
     env.update({"RUSTFLAGS": "--cfg koge29_verif", "KOGE29_VERIF_DIR": VERIF, "CARGO_TARGET_DIR": os.path.join(CACHE, "native-target"), "CARGO_NET_OFFLINE": "true"})
     env.update(env_extra)
+    env["RUST_BACKTRACE"] = "0"  # anyhow captures a backtrace per error otherwise (millions of Err results in the enumerations)
+    env["RUST_LIB_BACKTRACE"] = "0"
     p = subprocess.run(["cargo", "test", "--offline", test, "--", "--nocapture"], cwd=REPO, env=env, stdout=subprocess.PIPE, stderr=subprocess.STDOUT, text=True, timeout=timeout)
     return p.stdout
 
@@ -67,6 +69,20 @@ def c16_bounded():
     for mm in re.finditer(r"^C16-FAIL (\S+) (.*)$", out, re.M):
         fails[mm.group(1)] = mm.group(2)
     return int(m.group(1)), fails
+
+
+C09_CLAUSES = ["accessible_iff_in_the_five_regions", "unmapped_write_fails", "written_byte_is_read_back_after_all_other_writes", "written_byte_is_read_back", "no_other_location_changes"]
+
+
+def c09_bounded():
+    out = _run({"KOGE29_C09": "1"}, test="native_c09_bounded")
+    m = re.search(r"^C09-BOUNDED addresses=(\d+) mapped=(\d+) failures=(\d+)", out, re.M)
+    if not m:
+        return None, out[-2000:]
+    fails = {}
+    for mm in re.finditer(r"^C09-FAIL (\S+) (.*)$", out, re.M):
+        fails[mm.group(1)] = mm.group(2)
+    return (int(m.group(1)), int(m.group(2))), fails
 
 
 C17_CLAUSES = ["tcnt_counts_floor_elapsed_over_divisor", "flags_set_exactly_on_match_or_overflow", "one_request_per_enabled_event", "residual_is_elapsed_mod_divisor", "same_result_for_every_partition_of_the_elapsed_time"]
